@@ -297,7 +297,7 @@ def protocolToNumber : Proto → Int
   | .name s =>
     let l := asciiLower s
     if l == "tcp" then 6 else if l == "udp" then 17 else if l == "icmp" then 1
-    else if l == "sctp" then 132 else 0
+    else if l == "sctp" then 132 else if l == "icmpv6" then 58 else if l == "udplite" then 136 else 0
   | .num n => toUint8 n
 
 /-- `writeProtoMatch`. -/
@@ -497,7 +497,7 @@ def tierActionLabel (allowLabel : Label) (tierID : Nat) (action : String) : Labe
 def profileActionLabel (allowLabel : Label) (action : String) : Label :=
   let a := asciiLower action
   if a == "allow" then allowLabel else if a == "deny" || a == "pass" || a == "next-tier" then .deny
-  else .none
+  else if a == "log" then .log else .none
 
 /-- `writePolicyRules`. -/
 def writePolicyRules (c : Cfg) (lab : String → Label) (destLeg : Leg) :
